@@ -954,6 +954,9 @@ func parseOffsetReg(s string) (int32, RegisterType, error) {
 		return 0, 0, err
 	}
 
+	if !strings.HasSuffix(s, ")") {
+		return 0, 0, fmt.Errorf("invalid offset register: %s", s)
+	}
 	regString := strings.TrimSpace(s[firstParenthesis+1 : len(s)-1])
 
 	reg, err := parseRegister(regString)
